@@ -179,11 +179,20 @@ func authMode(r *sim.Rng, nStates, perState int, cw, cwBlk *sim.CaseWriter) {
 			h := n.FSM.Height()
 			var txs [][]byte
 			var lits []string
+			// senders: the BLS keys and the accounts under the other signature schemes (ed25519, secp256k1, eth)
+			pool := make([]crypto.PrivateKeyI, 0, nKeys+3)
+			for i := 0; i < nKeys; i++ {
+				pool = append(pool, keyOf(i))
+			}
+			pool = append(pool, others...)
+			keyOf := func(i int) crypto.PrivateKeyI { return pool[i] }
+			addrOf := func(i int) []byte { return pool[i].PublicKey().Address().Bytes() }
+			nKeys := len(pool)
 			for k := 0; k < 3+r.Intn(4); k++ {
 				from, att := r.Intn(nKeys), r.Intn(nKeys)
-				to := crypto.NewAddress(sim.BLSKey(r.Intn(nKeys)).Addr)
+				to := crypto.NewAddress(sim.BLSKey(r.Intn(9)).Addr)
 				t2 := &lib.Transaction{MessageType: fsm.MessageSendName, CreatedHeight: h, Time: uint64(1000*b + k + 1), Fee: 10000, NetworkId: 1, ChainId: 1, Memo: fmt.Sprintf("b%d-%d", b, k)}
-				t2.Msg, _ = lib.NewAny(&fsm.MessageSend{FromAddress: sim.BLSKey(from).Addr, ToAddress: to.Bytes(), Amount: 1 + uint64(k)})
+				t2.Msg, _ = lib.NewAny(&fsm.MessageSend{FromAddress: addrOf(from), ToAddress: to.Bytes(), Amount: 1 + uint64(k)})
 				signer := uint64(0)
 				switch r.Intn(4) {
 				case 0: // honest
@@ -198,16 +207,16 @@ func authMode(r *sim.Rng, nStates, perState int, cw, cwBlk *sim.CaseWriter) {
 					}
 				default: // the owner's key, somebody else's signature
 					sb, _ := t2.GetSignBytes()
-					t2.Signature = &lib.Signature{PublicKey: sim.BLSKey(from).Pub, Signature: keyOf((from + 1) % nKeys).Sign(sb)}
+					t2.Signature = &lib.Signature{PublicKey: pool[from].PublicKey().Bytes(), Signature: keyOf((from + 1) % nKeys).Sign(sb)}
 				}
 				bz, _ := lib.Marshal(t2)
 				txs = append(txs, bz)
-				signerLit, fromLit := "0%N", sim.AddrN(sim.BLSKey(from).Addr)
+				signerLit, fromLit := "0%N", sim.AddrN(addrOf(from))
 				switch signer {
 				case 1:
 					signerLit = fromLit
 				case 2:
-					signerLit = sim.AddrN(sim.BLSKey(att).Addr)
+					signerLit = sim.AddrN(addrOf(att))
 				}
 				lits = append(lits, signerLit+", "+fromLit)
 			}
@@ -222,6 +231,22 @@ func authMode(r *sim.Rng, nStates, perState int, cw, cwBlk *sim.CaseWriter) {
 			var items []string
 			for i, l := range lits {
 				items = append(items, fmt.Sprintf("(%s, %s)", l, sim.CoqBool(executed[string(txs[i])])))
+			}
+			n.FSM.Reset()
+			// the same block presented again (a proposal re-validated in a later round, a mempool re-check): what was refused the first
+			// time must be refused again - a refusal must not be remembered as an acceptance by any verification cache
+			res2 := new(lib.ApplyBlockResults)
+			if aerr2 := n.FSM.ApplyTransactions(context.Background(), txs, res2, true); aerr2 == nil && aerr == nil {
+				again := map[string]bool{}
+				for _, t := range res2.Txs {
+					again[string(t)] = true
+				}
+				for i := range txs {
+					if again[string(txs[i])] != executed[string(txs[i])] {
+						sim.Direct(outDirG, map[string]any{"finding": "second-presentation-differs", "kind": "a transaction refused in a block is executed when the same block is presented again (or the other way round)",
+							"index": i, "first": executed[string(txs[i])], "second": again[string(txs[i])], "signer_and_sender": lits[i]})
+					}
+				}
 			}
 			n.FSM.Reset()
 			cwBlk.Add("mkABlk "+sim.CoqList(items), map[string]any{"txs": len(txs), "executed": len(executed)})
